@@ -100,13 +100,16 @@ def table() -> dict[str, Prop]:
                          "always merged, and markup equality of the retyped emphasis pairs beyond the literals (index arithmetic "
                          "over runtime lists)"))
     from .rules import map_rules as MP
+    from .rules import linecap_rules as LC
     reg(Prop("C03", "map identity: a block token's map is [the line the rule was entered on, the cursor the rule returns with]; "
              "placeholder ends ([x, 0]) are patched with the cursor on every path to return True; the reference table's map "
-             "entries obey the same identity (MAP)",
-             [MP.rule_map],
-             not_decided="0 <= b < e <= number of lines, non-blank first / last line, nesting inside the parent's map, ordering of "
-                         "siblings and coverage of every non-blank line (line arithmetic over runtime tables; a cursor that "
-                         "overshoots its range is out of reach of the identity)"))
+             "entries obey the same identity (MAP); the cursor - hence every map end - never exceeds lineMax, which starts as the "
+             "number of lines and is only shrunk within the region or restored: state.line <= state.lineMax at every return of "
+             "every block rule and of the dispatcher, as a co-inductive contract validated at every dispatch (LINECAP)",
+             [MP.rule_map, LC.rule_linecap],
+             not_decided="b < e, non-blank first / last line, nesting inside the parent's map, ordering of siblings and coverage of "
+                         "every non-blank line (line arithmetic over runtime tables); the line count of a reference definition "
+                         "(a count of newlines, exempted with its reason in LINECAP)"))
     from .rules import ctx_rules as CX
     reg(Prop("C07", "no parser state leaks out of a block rule: blkIndent, listIndent, lineMax and every line-table cell a rule writes "
              "hold their entry values at every return of every block rule and of the dispatcher (CTX); the two unrestored fields "
@@ -227,7 +230,8 @@ TECHNIQUE = {
            "co-inductive over the rule set); must-pass-through / dominance checks for the freshness of tight and parentType; "
            "sibling lockstep of the save lists",
     "C03": "value numbering with symbolic entry values over per-rule CFGs (map end == cursor identity) plus a must-pass-through "
-           "path check for placeholder patches",
+           "path check for placeholder patches; zone (difference-bound) dataflow with trace partitioning on a flag for the "
+           "cursor <= lineMax contract, assumed co-inductively after each dispatch and validated at every call site",
     "C02": "typestate (flag valuation x level offset) over per-function CFGs with co-inductive callee summaries; value numbering "
            "of the push bodies specialised on the nesting literal; literal-agreement and who-may-write queries; dominance of "
            "`not silent` via predicate dataflow; traversal-coverage analysis of the placeholder eliminator",
